@@ -1031,6 +1031,159 @@ def exh_size(klen, nops):
 
 EXH = {'exh2': (3, 2), 'exh3': (2, 3), 'exh4': (1, 4)}   # name -> (max key length, sequence length)
 
+
+# ---- bounded-exhaustive histories over a WIDER alphabet (Entry API and mutable views included) --------
+def exv_space():
+    keys = [(0, 0)]
+    for l in range(1, 3):
+        for a in range(1 << l):
+            keys.append((a << (8 - l), l))
+    ops = []
+    for (a, l) in keys:
+        p = '%x/%d' % (a, l)
+        ops += ['ins A %s %%d' % p, 'rem A %s' % p, 'remk A %s' % p, 'remc A %s' % p,
+                'entry A %s or_insert:%%d' % p, 'entry A %s occ.remove' % p, 'entry A %s insert:%%d' % p,
+                'viewmut A at:%s set:%%d' % p, 'viewmut A at:%s remove' % p, 'viewmut A at:%s,l remove' % p]
+    ops += ['retain A even -', 'retain A len<=1 -', 'clear A', 'collect A 3,1,4,1,5']
+    return ops, keys
+
+
+def exv_script(idx, nops):
+    ops, keys = exv_space()
+    n = len(ops)
+    seq = []
+    x = idx
+    for _ in range(nops):
+        seq.append(ops[x % n])
+        x //= n
+    lines = []
+    v = 1
+    for o in seq:
+        if '%d' in o:
+            o = o % v
+            v += 1
+        lines += [o, 'obs A', 'shape A', 'arena A']
+    lines.append('iters A')
+    for (a, l) in keys:
+        lines.append('q A %x/%d' % (a, l))
+    return lines
+
+
+EXV = {'exv2': 2, 'exv3': 3}
+
+
+# ---- bounded-exhaustive set operations: all pairs of small maps x all pairs of view roots -------------
+def exs_keys():
+    keys = [(0, 0)]
+    for l in range(1, 3):
+        for a in range(1 << l):
+            keys.append((a << (8 - l), l))
+    return keys          # 7 keys: 0/0, 0/1, 80/1, 0/2, 40/2, 80/2, c0/2
+
+
+def exs_subsets(maxn):
+    import itertools
+    ks = exs_keys()
+    subs = []
+    for n in range(0, maxn + 1):
+        subs += list(itertools.combinations(range(len(ks)), n))
+    return subs
+
+
+def exs_script(idx, maxn):
+    """pair number idx of (subset A, subset B); every set operation for every pair of view roots that
+    exists (at:p for all 7 keys p, plus the whole maps); one key of A is removed with remove_keep_tree
+    first when idx is odd in the high bit, so that leftover nodes occur"""
+    ks = exs_keys()
+    subs = exs_subsets(maxn)
+    n = len(subs)
+    a, b, leftover = subs[idx % n], subs[(idx // n) % n], (idx // (n * n)) % 2
+    lines = []
+    v = 1
+    for i in a:
+        lines.append('ins A %x/%d %d' % (ks[i][0], ks[i][1], v)); v += 1
+    for i in b:
+        lines.append('ins B %x/%d %d' % (ks[i][0], ks[i][1], v)); v += 1
+    if leftover and a:
+        lines.append('remk A %x/%d' % ks[a[0]])
+    if leftover and b:
+        lines.append('remk B %x/%d' % ks[b[-1]])
+    roots = ['.'] + ['at:%x/%d' % k for k in ks[1:]]
+    for ra in roots:
+        for rb in roots:
+            for op in ('union', 'inter', 'diff', 'cdiff'):
+                lines.append('%s AB %s %s' % (op, ra, rb))
+    # the mutable twins at the whole maps and at two sub-roots
+    for ra, rb in (('.', '.'), ('at:0/1', '.'), ('.', 'at:80/1'), ('at:0/2', 'at:0/1')):
+        lines.append('umut AB %s %s +0 +0' % (ra, rb))
+        lines.append('imut AB %s %s +0 +0' % (ra, rb))
+        lines.append('dmut AB %s %s +0' % (ra, rb))
+        lines.append('cdmut AB %s %s +0' % (ra, rb))
+    return lines
+
+
+EXS = {'exs2': 2, 'exs3': 3}       # name -> max number of keys per operand
+
+
+def exs_size(maxn):
+    n = len(exs_subsets(maxn))
+    return 2 * n * n
+
+
+# ---- bounded-exhaustive views: all small maps x all navigations of length <= 2 ---------------------
+def exw_keys():
+    keys = [(0, 0)]
+    for l in range(1, 4):
+        for a in range(1 << l):
+            keys.append((a << (8 - l), l))
+    return keys          # the 15 keys of length <= 3
+
+
+def exw_subsets(maxn):
+    import itertools
+    n = len(exw_keys())
+    subs = []
+    for k in range(0, maxn + 1):
+        subs += list(itertools.combinations(range(n), k))
+    return subs
+
+
+def exw_size(maxn):
+    return 2 * len(exw_subsets(maxn))
+
+
+def exw_script(idx, maxn):
+    """map number idx//2 (a subset of at most maxn of the 15 keys), as built (idx even) or with its
+    first key removed by remove_keep_tree (idx odd: a value-less leftover node); every first navigation
+    step (at/find_exact/find_lpm for all 15 keys, left, right), and from every base (view_at of the 7
+    keys of length <= 2, left, right) every second step; read-only dump and the mutable twin's info"""
+    ks = exw_keys()
+    subs = exw_subsets(maxn)
+    sub, leftover = subs[(idx // 2) % len(subs)], idx % 2
+    lines = []
+    v = 1
+    for i in sub:
+        lines.append('ins A %x/%d %d' % (ks[i][0], ks[i][1], v)); v += 1
+    if leftover and sub:
+        lines.append('remk A %x/%d' % ks[sub[0]])
+    lines += ['obs A', 'shape A']
+    steps = ['l', 'r']
+    for (a, l) in ks:
+        p = '%x/%d' % (a, l)
+        steps += ['at:' + p, 'fx:' + p, 'fl:' + p]
+    bases = ['l', 'r'] + ['at:%x/%d' % k for k in ks[:7]]
+    navs = list(steps)
+    for b in bases:
+        navs += [b + ',' + st for st in steps]
+    for nav in navs:
+        lines.append('view A %s dump' % nav)
+        lines.append('viewmut A %s info' % nav)
+    lines.append('viewmut A . ro')
+    return lines
+
+
+EXW = {'exw2': 2, 'exw3': 3}       # name -> max number of keys in the map
+
 PROFILES = {
     'hist': prof_c01, 'queries': prof_queries, 'iters': prof_iters, 'count': prof_count,
     'count_nov': prof_count_nov, 'setops': prof_setops, 'setops_mut': prof_setops_mut,
@@ -1048,6 +1201,18 @@ def gen_script(profile, seed, idx, types=None, tiny_share=0.35):
         # over the space; counts >= exh_size enumerate the whole space
         j = (idx * 1000003 + seed) % total if total > 1 else 0
         return '%s-%d-%d' % (profile, seed, idx), 'u8', exh_script(j, klen, nops)
+    if profile in EXV:
+        total = len(exv_space()[0]) ** EXV[profile]
+        j = (idx * 1000003 + seed) % total
+        return '%s-%d-%d' % (profile, seed, idx), 'u8', exv_script(j, EXV[profile])
+    if profile in EXS:
+        total = exs_size(EXS[profile])
+        j = (idx * 1000003 + seed) % total
+        return '%s-%d-%d' % (profile, seed, idx), 'u8', exs_script(j, EXS[profile])
+    if profile in EXW:
+        total = exw_size(EXW[profile])
+        j = (idx * 1000003 + seed) % total
+        return '%s-%d-%d' % (profile, seed, idx), 'u8', exw_script(j, EXW[profile])
     rng = random.Random('%s/%d/%d' % (profile, seed, idx))
     if profile == 'alg':
         ty = ALL_TYPES[idx % len(ALL_TYPES)]
